@@ -622,12 +622,12 @@ def extract_fn(unit: str, file: str, item: str, mode: str, contracts, canary: bo
             if cs.params is not None:
                 want = [m_.group(1) for m_ in re.finditer(r'(?:^|,)\s*(?:mut\s+)?(\w+)\s*:', cs.params)]
             cl = cls[k] if k < len(cls) else None
-            if want and (cl is None or (_names(cl) != want and toks[cl.bar_tok].text != '||')):
+            if want and (cl is None or (_names(cl) and _names(cl) != want)):
                 match = [c0 for c0 in cls if _names(c0) == want]
                 if len(match) == 1:
                     cl = match[0]
                     info.rewrites.append('A4:closure%d re-anchored by parameter names' % k)
-                else:
+                elif cl is None:
                     raise LostAnchor('%s: closure %d with parameters %s not found' % (fn_label, k, want))
             if cl is None:
                 raise LostAnchor('%s: closure %d not found (function has %d closures)' % (fn_label, k, len(cls)))
